@@ -35,6 +35,7 @@ type c15Case struct {
 	Handlers []c15Handler `json:"handlers"`
 	Empty    bool         `json:"empty,omitempty"`   // the peer sent an empty data frame some time before the connection ends
 	Partial  bool         `json:"partial,omitempty"` // the peer has sent the first fragment of a message and never completes it
+	LateCancel bool       `json:"late_cancel,omitempty"` // the peer sent xrpc.cancel for ids the server is not handling (a cancel that arrives after its call was answered)
 	Stall    bool         `json:"stall,omitempty"`   // the link stops moving data while a large response is being written (server pings every 40 ms)
 }
 
@@ -160,6 +161,11 @@ func runC15(c c15Case) (*Violation, string) {
 			return violf("empty-frame-wedges-connection", "after an empty data frame from the peer a call on the same connection failed: %v", err), ""
 		}
 	}
+	if c.LateCancel {
+		rig.Proxy.InjectClientFrame(`{"jsonrpc":"2.0","method":"xrpc.cancel","params":[987654]}`)
+		rig.Proxy.InjectClientFrame(`{"jsonrpc":"2.0","method":"xrpc.cancel","params":["never-used"]}`)
+		time.Sleep(3 * time.Millisecond)
+	}
 	if c.Partial && !c.Stall {
 		rig.Proxy.InjectPartialFrame()
 		time.Sleep(3 * time.Millisecond)
@@ -283,6 +289,9 @@ func c15NT(c c15Case) (bool, []string) {
 	if c.Stall {
 		cl = append(cl, "stalled_write_at_end")
 	}
+	if c.LateCancel {
+		cl = append(cl, "late_cancel_before_end")
+	}
 	for _, h := range c.Handlers {
 		cl = append(cl, "handler_"+h.Kind)
 		if h.Size > 4096 {
@@ -295,13 +304,13 @@ func c15NT(c c15Case) (bool, []string) {
 var c15Kinds = []string{"watch", "late", "notify", "latenotify", "stream", "reverse", "substart"}
 var c15Causes = []string{"closer", "fin", "rst", "server_ctx"}
 
-const c15Rule = "end-of-connection cause {client closer (graceful close frame), FIN, RST, server-side context cancel} x 1-6 handlers in progress from {unary that watches its context (reaction time 0-50 ms), unary that finishes only after the connection is gone (response 0-40000 bytes), notification (both flavours), streaming into a returned channel, blocked in a reverse call, 1-200 subscribing calls whose handlers return their channels at about the moment the connection ends}; census of goroutines by the library's per-connection pprof label. Complete grid of cause x single handler kind and cause x all pairs. Non-trivial = >=2 handlers in progress at connection end; distinct by descriptor hash"
+const c15Rule = "end-of-connection cause {client closer (graceful close frame), FIN, RST, server-side context cancel} x 1-6 handlers in progress from {unary that watches its context (reaction time 0-50 ms), unary that finishes only after the connection is gone (response 0-40000 bytes), notification (both flavours), streaming into a returned channel, blocked in a reverse call, 1-200 subscribing calls whose handlers return their channels at about the moment the connection ends}; optionally preceded by xrpc.cancel frames for ids the server is not handling; census of goroutines by the library's per-connection pprof label. Complete grid of cause x single handler kind and cause x all pairs. Non-trivial = >=2 handlers in progress at connection end; distinct by descriptor hash"
 
 func TestC15(t *testing.T) {
 	rec := NewRec("C15", c15Rule)
 	defer rec.Finish(t)
 	rec.EnableJournal()
-	rec.RequireClass("handler_substart", "partial_message_pending", "stalled_write_at_end", "empty_frame_before_end", "cause_closer", "cause_fin", "cause_rst", "cause_server_ctx", "handler_watch", "handler_late", "handler_notify", "handler_stream", "handler_reverse", "large_response")
+	rec.RequireClass("late_cancel_before_end", "handler_substart", "partial_message_pending", "stalled_write_at_end", "empty_frame_before_end", "cause_closer", "cause_fin", "cause_rst", "cause_server_ctx", "handler_watch", "handler_late", "handler_notify", "handler_stream", "handler_reverse", "large_response")
 	known := rec.IsKnown("lazywriter-leak")
 	run := func(ft failer, c c15Case) {
 		if known {
@@ -350,6 +359,7 @@ func TestC15(t *testing.T) {
 				run(t, c15Case{Cause: cause, Handlers: []c15Handler{{Kind: "watch"}, {Kind: "notify"}}, Stall: true})
 			}
 			run(t, c15Case{Cause: cause, Handlers: []c15Handler{{Kind: "substart", Count: 200}, {Kind: "stream"}}})
+			run(t, c15Case{Cause: cause, Handlers: []c15Handler{{Kind: "watch"}, {Kind: "notify"}, {Kind: "stream"}}, LateCancel: true})
 			for i, a := range c15Kinds {
 				k++
 				if k%nsh == sh {
@@ -370,7 +380,7 @@ func TestC15(t *testing.T) {
 	})
 	rec.Rapid(t, "rapid", func(rt *rapid.T) {
 		c := c15Case{Cause: rapid.SampledFrom(c15Causes).Draw(rt, "cause"), Empty: rapid.IntRange(0, 3).Draw(rt, "empty") == 0,
-			Partial: rapid.IntRange(0, 3).Draw(rt, "partial") == 0, Stall: rapid.IntRange(0, 5).Draw(rt, "stall") == 0}
+			Partial: rapid.IntRange(0, 3).Draw(rt, "partial") == 0, Stall: rapid.IntRange(0, 5).Draw(rt, "stall") == 0, LateCancel: rapid.IntRange(0, 3).Draw(rt, "latecancel") == 0}
 		if c.Stall && (c.Cause == "closer" || c.Empty || c.Partial) {
 			c.Stall = false // the closer / a probe would itself wait for the stalled link
 		}
